@@ -198,12 +198,12 @@ def acknack_handler(body, add):
     return n
 
 
-def requested_loop(body, add):
+def requested_loop(body, add, fx=None):
     """R01d (second half): in write_message_reliable every requested change leads to a send."""
     fc = FnCtx(body)
     m = fc.mir
     heads = fc.calls("RtpsReaderProxy::next_requested_change")
-    sends = [bb for bb, t in fc.calls("WriteMessage::write_message")]
+    sends = [bb for bb, t in (fc.calls_through(fx, "WriteMessage::write_message") if fx is not None else fc.calls("WriteMessage::write_message"))]
     n = 0
     for hb, ht in heads:
         # Some-edge of the switch on the result
@@ -221,13 +221,13 @@ def requested_loop(body, add):
     return n
 
 
-def unsent_loop(body, add, rule="R01d"):
+def unsent_loop(body, add, rule="R01d", fx=None):
     """first-send loop: every unsent change leads to a send and to set_highest_sent_seq_num."""
     fc = FnCtx(body)
     m = fc.mir
     heads = fc.calls("RtpsReaderProxy::next_unsent_change")
-    sends = [bb for bb, t in fc.calls("WriteMessage::write_message")]
-    marks = [bb for bb, t in fc.calls("RtpsReaderProxy::set_highest_sent_seq_num")]
+    sends = [bb for bb, t in (fc.calls_through(fx, "WriteMessage::write_message") if fx is not None else fc.calls("WriteMessage::write_message"))]
+    marks = [bb for bb, t in (fc.calls_through(fx, "RtpsReaderProxy::set_highest_sent_seq_num") if fx is not None else fc.calls("RtpsReaderProxy::set_highest_sent_seq_num"))]
     n = 0
     for hb, ht in heads:
         some = None
